@@ -17,18 +17,28 @@ StimSet == StimsFor(Role) \cup (IF Role \in {"respPush","respPull"}
              THEN {[St(k) EXCEPT !.from = "B", !.msg = ReqNew(1, Role = "respPull", "v0", "s"), !.val = v] : k \in {"RecvRequest","OnRequestReceived"}, v \in ValFew}
              ELSE {})
 
+(* the channel id a stimulus addresses is built from the authenticated sender (and, for restart-existing, embedded) *)
+Addresses(s) ==
+  CASE s.kind \in {"RecvRequest","OnRequestReceived"} -> (s.from = Id.initiator /\ Id.responder = "A" /\ s.msg.tid = Id.tid)
+    [] s.kind \in {"RecvResponse","OnResponseReceived"} -> (s.from = Id.responder /\ Id.initiator = "A" /\ s.msg.tid = Id.tid)
+    [] s.kind = "RecvRestartExisting" -> (s.msg.ri = Id.initiator /\ s.msg.rr = Id.responder /\ s.msg.rt = Id.tid)
+    [] OTHER -> TRUE
+
 Init == /\ has = (Role \in {"initPush","initPull"}) /\ rec = ZeroRec("Requested") /\ cache = FreshCache /\ h = << >> /\ done = FALSE
         /\ last = [s |-> Stim0, o |-> Out0(FreshCache), pre |-> ZeroRec("Requested"), had |-> FALSE]
 
 Do(s) ==
   /\ ~done /\ Len(h) < MaxSteps
   /\ (has \/ s.kind \in {"RecvRequest","OnRequestReceived","RecvResponse","OnResponseReceived","RecvRestartExisting"})
-  /\ LET o == Handle(s, "A", has, Id, rec, Types, cache)
-         base == IF has THEN rec ELSE [ZeroRec("Requested") EXCEPT !.vouchers = <<s.msg.v>>]
+  /\ LET addressed == Addresses(s)
+         hasEff == has /\ addressed
+         o == Handle(s, "A", hasEff, Id, rec, Types, cache)
+         base == IF hasEff THEN rec ELSE [ZeroRec("Requested") EXCEPT !.vouchers = <<s.msg.v>>]
+         mine == addressed /\ (hasEff \/ (o.creates /\ ~has))          \* a channel created under another id is not c1
      IN /\ o.ret # "unmodelled"
-        /\ has' = (has \/ o.creates)
-        /\ rec' = IF has \/ o.creates THEN After(base, o.evs) ELSE rec
-        /\ cache' = o.cache
+        /\ has' = (has \/ (addressed /\ o.creates))
+        /\ rec' = IF mine THEN After(base, o.evs) ELSE rec
+        /\ cache' = IF addressed THEN o.cache ELSE cache
         /\ last' = [s |-> s, o |-> o, pre |-> rec, had |-> has]
   /\ h' = Append(h, s) /\ UNCHANGED done
 
@@ -56,7 +66,7 @@ M_C04_Validated == (IsReqS /\ S.msg.kind \in {"New","Restart"}) => ((O.creates \
 M_C04_Refused == (IsReqS /\ S.msg.kind \in {"New","Restart"} /\ ~ValOK) => (~ReplyM.accepted /\ ~O.creates)
 M_C04_Faithful == (IsReqS /\ S.msg.kind \in {"New","Restart"} /\ ReplyM.accepted) => (ReplyM.v = S.val.vres)
 M_C02_Final == (Had /\ P.status \in Terminal) => rec = P
-M_C05_Entitled == (IsReqS /\ Had /\ S.from # Id.initiator) => rec = P
+M_C05_Entitled == ((IsReqS \/ S.kind \in {"RecvResponse","OnResponseReceived","RecvRestartExisting"}) /\ Had /\ ~Addresses(S)) => rec = P
 M_C18_Dup == (IsReqS /\ S.msg.kind = "New" /\ Had) => (rec = P /\ ~ReplyM.accepted)
 M_C10_Identity == (S.kind = "Restart" /\ Had) => (<<rec.queued, rec.sent, rec.received, rec.qIdx, rec.sIdx, rec.rIdx>> = <<P.queued, P.sent, P.received, P.qIdx, P.sIdx, P.rIdx>>)
 M_C10_Skip == \A i \in 1..Len(O.tr) : (O.tr[i].call = "open" /\ O.tr[i].hasChan) => O.tr[i].skip = P.rIdx
